@@ -210,6 +210,17 @@ def gen_fault(w, rng, cfg):
 
 
 def gen_step(w, rng, cfg, tree, tier):
+    pend = getattr(w, "_pending_edit", None)
+    if pend is not None:
+        # the freshly edited data is encoded twice in a row (P2 needs the same call on the same argument)
+        sid, left = pend
+        w._pending_edit = (sid, left - 1) if left > 1 else None
+        last = max(w.slots) if w.slots else None
+        if last is not None and w.slots[last].route[-1:] == ["edit_posonly"]:
+            w._edit_slot = last
+        es = getattr(w, "_edit_slot", None)
+        if es in w.slots:
+            return {"op": "to_code", "in": [es]}
     if cfg["faults"] and rng.chance(cfg["fault_rate"]):
         op = gen_fault(w, rng, cfg)
         if op is not None:
@@ -249,6 +260,11 @@ def gen_step(w, rng, cfg, tree, tier):
                 ins.append(rng.choice(datas).id)
             return {"op": "observe", "in": ins, "what": what}
         k = "api"
+    if k in ("graft", "observe") and rng.chance(0.3):
+        fn = [s for s in w.live("data") if s.value.type is not None and s.value.type.args.positional_or_keyword]
+        if fn:
+            w._pending_edit = (None, 2)
+            return {"op": "edit_posonly", "in": [rng.choice(fn).id]}
     if k == "graft":
         codes = w.live("code")
         if codes:
